@@ -61,7 +61,13 @@ def check_text(rec: Rec, text: str, origin: str, full=False):
 
 
 def replay(rec, case):
-    check_text(rec, case["input"]["text"], case["input"].get("origin", "replay"), full=True)
+    from .. import dims
+    from ..lib import IBAN
+    t = case["input"]["text"]
+    origin = case["input"].get("origin", "replay")
+    if origin.startswith("argform:"):
+        t = dict(dims.arg_forms(t, IBAN)).get(origin.split(":", 1)[1], t)
+    check_text(rec, t, origin, full=True)
 
 
 # ------------------------------------------------------------------------------------------------- shards
@@ -116,6 +122,30 @@ def shard_country(arg):
         rec.exhaustive.append("single replacement of every position by every alphabet character, per base")
         rec.exhaustive.append("all 100 check-digit pairs per base")
         rec.exhaustive.append("every length 0..40 by truncation/extension, every deletion/duplication/adjacent swap, per base")
+    # extreme whitespace (every gap, many runs, hundreds/thousands of padding characters), domain tokens, argument forms
+    from .. import dims
+    from ..lib import IBAN as _IBAN
+    toks = dims.token_dictionary()[:24 if quick else 120]
+    for bi, base in enumerate(bases[:2 if quick else 6]):
+        for label, t in dims.whitespace_extremes(base):
+            check_text(rec, t, f"ws-extreme:{label}", full=True)
+            rec.case("ws-extreme-valid", (cc, label, bi), {"label": label, "len": len(t), "base": base} if bi == 0 and label == "every-gap-space" else None)
+            bad = t.replace(base[5], "-", 1) if base[5] in t else t
+            check_text(rec, bad, f"ws-extreme-bad:{label}", full=False)
+            rec.case("ws-extreme-invalid", (cc, label, bi, "bad"))
+        for label, t in dims.token_variants(base, toks):
+            check_text(rec, t, f"token:{label}", full=False)
+            rec.case(label, t, t if (bi == 0 and cc == "DE" and label == "token-prefix") else None)
+        texts = [base, base.lower(), base[:2] + "00" + base[4:], base[:-1], " " + base + " "]
+        d = int(base[2:4])
+        texts += [base[:2] + f"{a:02d}" + base[4:] for a in (d - 97, d + 97) if 0 <= a <= 99]
+        for t in texts:
+            want = oracle().accept(t)
+            for form, v in dims.arg_forms(t, _IBAN):
+                # the same text handed over as a str subclass / as an (unvalidated) IBAN object is still that text
+                got = check_text(rec, v, f"argform:{form}", full=True)
+                rec.case(f"argform-{form}", (t, form), {"text": t, "form": form} if bi == 0 else None)
+    rec.exhaustive.append("whitespace in every gap / 300-70000 padding characters, token dictionary x 4 separators, per base")
     # variable whitespace/lower-case rendering of an accepted text must be accepted (normalisation first)
     for base in bases[:2]:
         t = " ".join(base[i:i + 4] for i in range(0, len(base), 4)).lower()
@@ -239,5 +269,7 @@ def run(ctx):
     if not ctx.quick:
         from ..engines import fuzz
         fuzz.run_campaign(ctx.rec, "iban-c01", 120000, ctx.seed, ctx.prop)   # secondary engine: coverage-guided, oracle inside
-    ctx.require_classes("valid", "replace-nonascii", "replace-ascii", "replace-accepted", "pair", "length-trunc",
+    ctx.require_classes("ws-extreme-valid", "ws-extreme-invalid", "token-prefix", "token-suffix", "token-infix",
+                        "argform-userstr", "argform-own-object",
+                        "valid", "replace-nonascii", "replace-ascii", "replace-accepted", "pair", "length-trunc",
                         "length-extend", "prefix-accepted", "prefix-rejected", "hyp-near", "hyp-text")
